@@ -56,8 +56,9 @@ theorem copyKernel_lane_writes (c : Cfg) (f0 : Nat → Nat) (k s : Nat) (hs : s 
     exact ⟨l, (mem_exec_lanes c k s l hs).mpr ⟨h1, h2⟩, hp⟩
 
 /-- **copyKernel_correct.** For every grid size `G ≥ 1`, element count `N < 2^31`, code / kernel-argument /
-    packet / source / destination addresses (`Cfg.Valid`: no 64-bit wrap-around, destination range disjoint
-    from what the kernel reads), every memory `m` whose source bytes are bytes, every tail of the
+    packet / source / destination addresses (`Cfg.Valid`: no 64-bit wrap-around, packet and kernel arguments
+    dword-aligned — SMEM ignores the two low address bits —, destination range disjoint from what the kernel
+    reads), every memory `m` whose source bytes are bytes, every tail of the
     kernel-argument segment and every dispatch packet announcing work-group size 64: the emulator runs the
     dispatch `(G,1,1)/(64,1,1)` of the `copyKernel` bytes without fault, and in the final memory
     `dst[i] = src[i]` for all `4·min(G,N)` bytes of the copied elements, while every other byte of memory —
@@ -131,7 +132,7 @@ theorem memcopyD2D_tail_overrun (co ka pa src dst num : Nat) (hnum : 0 < num) (h
 
 /-- a concrete launch: the addresses the real driver hands out in the harness runs, `num = 5` -/
 example : (d2dCfg 0x3000 0x4000 0x5000 0x1000 0x2000 5).Valid :=
-  ⟨by decide, by decide, by decide, by decide, by decide, by decide, by decide,
+  ⟨by decide, by decide, by decide, by decide, by decide, by decide, by decide, by decide, by decide,
    fun a h => by simp only [Cfg.inDst, Cfg.K, d2dCfg] at h ⊢; omega,
    fun a h => by simp only [Cfg.inDst, Cfg.K, d2dCfg] at h ⊢; omega,
    fun a h => by simp only [Cfg.inDst, Cfg.K, d2dCfg] at h ⊢; omega⟩
